@@ -134,20 +134,13 @@ Proof.
   unfold erase_S, emit, upd; cbn. rewrite filter_app_one. reflexivity.
 Qed.
 
-Lemma erase_fold_send : forall x (f : nid -> msg) l s,
-  ~ In x l -> (forall y, In y l -> y <> x -> smem y (sdel x (tconn (nd s))) = smem y (tconn (nd s))) ->
-  erase_S x (fold_left (fun s y => send y (f y) s) l s) = fold_left (fun s y => send y (f y) s) l (erase_S x s).
+Lemma erase_emit : forall x o s, not_to x o = true -> erase_S x (emit o s) = emit o (erase_S x s).
 Proof.
-  intros x f l; induction l as [|a l IH]; intros s Hx Hm; cbn; [reflexivity|].
-  assert (a <> x) as Ha by (intros ->; apply Hx; left; reflexivity).
-  assert (erase_S x (send a (f a) s) = send a (f a) (erase_S x s)) as E1.
-  { unfold send. change (tconn (nd (erase_S x s))) with (sdel x (tconn (nd s))).
-    rewrite (Hm a (or_introl eq_refl) Ha). destruct (smem a _); [|reflexivity].
-    unfold erase_S, emit; cbn. rewrite filter_app_one. cbn.
-    destruct (a =? x) eqn:E; [apply N.eqb_eq in E; contradiction | reflexivity]. }
-  rewrite <- E1. apply IH; [intros H; apply Hx; right; exact H|].
-  intros y Hy Hne. rewrite nd_send. apply Hm; [right; exact Hy | exact Hne].
+  intros x o s Ho. unfold erase_S, emit. cbn [nd outs set]. rewrite filter_app. cbn [filter]. rewrite Ho. reflexivity.
 Qed.
+
+Lemma erase_upd : forall x f s, (forall n, erase_ro x (f n) = f (erase_ro x n)) -> erase_S x (upd f s) = upd f (erase_S x s).
+Proof. intros x f s Hf. unfold erase_S, upd. cbn [nd outs set]. rewrite Hf. reflexivity. Qed.
 
 Lemma smem_sdel_other : forall x y l, y <> x -> smem y (sdel x l) = smem y l.
 Proof.
@@ -157,13 +150,90 @@ Proof.
   - rewrite IH; reflexivity.
 Qed.
 
+Lemma erase_send : forall x a m s, a <> x -> erase_S x (send a m s) = send a m (erase_S x s).
+Proof.
+  intros x a m s Ha. unfold send. change (tconn (nd (erase_S x s))) with (sdel x (tconn (nd s))).
+  rewrite (smem_sdel_other x a _ Ha). destruct (smem a (tconn (nd s))) eqn:E; [|reflexivity].
+  apply erase_emit. cbn. destruct (a =? x) eqn:E2; [apply N.eqb_eq in E2; contradiction | reflexivity].
+Qed.
+
+Lemma erase_fold_send : forall x (f : nid -> msg) l s,
+  ~ In x l ->
+  erase_S x (fold_left (fun s y => send y (f y) s) l s) = fold_left (fun s y => send y (f y) s) l (erase_S x s).
+Proof.
+  intros x f l; induction l as [|a l IH]; intros s Hx; cbn [fold_left]; [reflexivity|].
+  assert (a <> x) as Ha by (intros ->; apply Hx; left; reflexivity).
+  rewrite <- (erase_send x a (f a) s Ha). apply IH. intros H; apply Hx; right; exact H.
+Qed.
+
+Lemma erase_fire : forall x c r e s, erase_S x (fire c r e s) = fire c r e (erase_S x s).
+Proof. intros; unfold fire; destruct c; try reflexivity. apply erase_emit; reflexivity. Qed.
+
 Lemma erase_fold_fire : forall x l s,
   erase_S x (fold_left (fun s kv => fire (snd kv) 0 LEADER_CHANGED s) l s) =
   fold_left (fun (s : S) (kv : N * cbref) => fire (snd kv) 0 LEADER_CHANGED s) l (erase_S x s).
 Proof.
-  intros x l; induction l as [|a l IH]; intros s; cbn; [reflexivity|].
-  rewrite IH. f_equal. unfold fire. destruct (snd a); try reflexivity.
-  unfold erase_S, emit; cbn. rewrite filter_app_one. reflexivity.
+  intros x l; induction l as [|a l IH]; intros s; cbn [fold_left]; [reflexivity|].
+  rewrite IH, erase_fire. reflexivity.
+Qed.
+
+Lemma erase_on_leader_changed : forall x s, erase_S x (on_leader_changed s) = on_leader_changed (erase_S x s).
+Proof.
+  intros; unfold on_leader_changed. rewrite erase_upd by reflexivity. rewrite erase_fold_fire. reflexivity.
+Qed.
+
+Lemma erase_set_role : forall x r s, erase_S x (set_role r s) = set_role r (erase_S x s).
+Proof.
+  intros; unfold set_role; cbv zeta. change (role (nd (erase_S x s))) with (role (nd s)).
+  destruct (role (nd s) =? r).
+  - apply erase_upd; reflexivity.
+  - rewrite erase_emit by reflexivity. rewrite erase_upd by reflexivity. reflexivity.
+Qed.
+
+(* the part of tick_election before the majority test *)
+Definition election_start (e : env) (me : nid) (s : S) : S :=
+  let s := upd (fun n => n <| deadline := (tnow s + gen_timeout e)%Z |> <| leader := None |>) s in
+  let s := set_role CANDIDATE s in
+  let s := upd (fun n => n <| term := term n + 1 |> <| voted := Some me |> <| votes := 1 |>) s in
+  let n := nd s in
+  let s := fold_left (fun s x => send x (RequestVote (term n) (last_idx (log n)) (last_term (log n))) s) (others n) s in
+  on_leader_changed s.
+
+Lemma tick_election_eq : forall e s,
+  tick_election e s =
+  match self (nd s) with
+  | None => s
+  | Some me =>
+    if ((role (nd s) =? FOLLOWER) || (role (nd s) =? CANDIDATE)) && (deadline (nd s) <? tnow s)%Z && connected_to_anyone (nd s)
+    then let s1 := election_start e me s in if majority (votes (nd s1)) (nd s1) then become_leader e s1 else s1
+    else s
+  end.
+Proof. reflexivity. Qed.
+
+Lemma election_start_facts : forall e me s,
+  votes (nd (election_start e me s)) = 1 /\ others (nd (election_start e me s)) = others (nd s).
+Proof.
+  intros e me s. unfold election_start; cbv zeta.
+  match goal with |- context [on_leader_changed ?Y] =>
+    destruct (fr_on_leader_changed true Y) as (ex & _ & _ & C & _); destruct (core_fields _ _ C) as (_ & _ & _ & _ & -> & _);
+    assert (others (nd (on_leader_changed Y)) = others (nd Y)) as -> end.
+  { unfold on_leader_changed. cbn [nd upd set].
+    match goal with |- others (nd (fold_left ?g ?l ?Y)) = _ => generalize l; generalize Y end.
+    intros Y l; revert Y; induction l as [|a l IH]; intros Y; cbn [fold_left]; [reflexivity|].
+    rewrite IH. unfold fire; destruct (snd a); reflexivity. }
+  match goal with |- context [fold_left (fun s y => send y (@?f y) s) ?l ?Y] => rewrite !(nd_fold_send f l Y) end.
+  unfold set_role; cbv zeta. destruct (_ =? CANDIDATE); split; reflexivity.
+Qed.
+
+Lemma erase_election_start : forall e me s x,
+  ~ In x (others (nd s)) -> erase_S x (election_start e me s) = election_start e me (erase_S x s).
+Proof.
+  intros e me s x Hx. unfold election_start; cbv zeta.
+  rewrite erase_on_leader_changed. f_equal.
+  match goal with |- erase_S x (fold_left (fun s y => send y (@?f y) s) ?l ?Y) = _ => rewrite (erase_fold_send x f l Y) end.
+  2:{ unfold set_role; cbv zeta. destruct (_ =? CANDIDATE); exact Hx. }
+  rewrite erase_upd by reflexivity. rewrite erase_set_role. rewrite erase_upd by reflexivity.
+  reflexivity.
 Qed.
 
 Lemma erase_tick_election : forall e s x,
@@ -171,48 +241,21 @@ Lemma erase_tick_election : forall e s x,
   connected_to_anyone (erase_ro x (nd s)) = connected_to_anyone (nd s) ->
   erase_S x (tick_election e s) = tick_election e (erase_S x s).
 Proof.
-  intros e s x Hx Hm Hc. unfold tick_election; cbv zeta.
+  intros e s x Hx Hm Hc. rewrite !tick_election_eq.
   change (self (nd (erase_S x s))) with (self (nd s)).
   destruct (self (nd s)) as [me|]; [|reflexivity].
   change (role (nd (erase_S x s))) with (role (nd s)). change (deadline (nd (erase_S x s))) with (deadline (nd s)).
   change (tnow (erase_S x s)) with (tnow s). change (nd (erase_S x s)) with (erase_ro x (nd s)) at 1. rewrite Hc.
-  destruct (_ && _); [|reflexivity].
-  match goal with |- erase_S x (if majority (votes (nd ?A)) (nd ?A) then _ else _) =
-                      (if majority (votes (nd ?B)) (nd ?B) then _ else _) =>
-    assert (erase_S x A = B) as EAB; [|assert (majority (votes (nd A)) (nd A) = false) as MA] end.
-  { unfold on_leader_changed.
-    match goal with |- erase_S x (upd ?f (fold_left ?g (wait_reply (nd ?Y)) ?Y)) = upd ?f (fold_left ?g (wait_reply (nd ?Z)) ?Z) =>
-      assert (erase_S x Y = Z) as EYZ end.
-    { match goal with |- erase_S x (fold_left (fun s y => send y (@?f y) s) ?l ?Y) = _ =>
-        rewrite (erase_fold_send x f l Y) end.
-      - unfold set_role; cbn. destruct (role (nd s) =? CANDIDATE); [reflexivity|].
-        unfold erase_S, emit, upd; cbn. rewrite filter_app_one. reflexivity.
-      - unfold set_role; cbn. destruct (role (nd s) =? CANDIDATE); exact Hx.
-      - intros y _ Hne. apply smem_sdel_other; exact Hne. }
-    rewrite <- EYZ. change (wait_reply (nd (erase_S x ?Y))) with (wait_reply (nd Y)).
-    rewrite <- erase_fold_fire. reflexivity. }
-  { match goal with |- majority (votes (nd (on_leader_changed ?Y))) _ = _ =>
-      pose proof (fr_on_leader_changed true Y) as F end.
-    destruct (core_fields _ _ (fr_core _ _ _ F)) as (_ & _ & _ & _ & F5 & _). rewrite F5.
-    match goal with |- majority (votes (nd (fold_left (fun s y => send y (@?f y) s) ?l ?Y))) _ = _ =>
-      rewrite (nd_fold_send f l Y) end.
-    unfold majority in *.
-    match goal with |- context [length (others (nd (on_leader_changed ?Y)))] =>
-      assert (others (nd (on_leader_changed Y)) = others (nd s)) as -> end.
-    { unfold on_leader_changed. cbn.
-      match goal with |- others (nd (fold_left ?g ?l ?Y)) = _ =>
-        assert (forall l Y, others (nd (fold_left g l Y)) = others (nd Y)) as HF end.
-      { clear. intros l; induction l as [|a l IH]; intros Y; cbn; [reflexivity|]. rewrite IH.
-        unfold fire; destruct (snd a); reflexivity. }
-      rewrite HF. match goal with |- others (nd (fold_left (fun s y => send y (@?f y) s) ?l ?Y)) = _ =>
-        rewrite (nd_fold_send f l Y) end.
-      unfold set_role; cbn. destruct (_ =? CANDIDATE); reflexivity. }
-    cbn. exact Hm. }
-  rewrite MA, <- EAB.
-  assert (majority (votes (nd (erase_S x ?[A]))) (nd (erase_S x ?A)) = majority (votes (nd ?A)) (nd ?A)) as EM by reflexivity.
-  match goal with |- _ = if majority (votes (nd (erase_S x ?A))) (nd (erase_S x ?A)) then _ else _ =>
-    change (majority (votes (nd (erase_S x A))) (nd (erase_S x A))) with (majority (votes (nd A)) (nd A)) end.
-  rewrite MA. reflexivity.
+  destruct (_ && _); [|reflexivity]. cbv zeta.
+  rewrite <- (erase_election_start e me s x Hx).
+  destruct (election_start_facts e me s) as (V & O).
+  assert (majority (votes (nd (election_start e me s))) (nd (election_start e me s)) = false) as M1.
+  { rewrite V. unfold majority in *. rewrite O. exact Hm. }
+  change (votes (nd (erase_S x (election_start e me s)))) with (votes (nd (election_start e me s))).
+  assert (majority (votes (nd (election_start e me s))) (nd (erase_S x (election_start e me s))) = false) as M2.
+  { rewrite V. unfold majority in *. change (others (nd (erase_S x (election_start e me s)))) with (others (nd (election_start e me s))).
+    rewrite O. exact Hm. }
+  rewrite M1, M2. reflexivity.
 Qed.
 
 Theorem C18_noninterference_partial : forall e s x,
